@@ -26,7 +26,7 @@ type PermCase struct {
 	ErrBranches bool                   `json:"errBranches,omitempty"`
 	ErrNode     string                 `json:"errNode,omitempty"`
 	InPlace     bool                   `json:"inPlace,omitempty"` // native code deletes/overwrites in the map it is given (like bs.Remove)
-	Direct      bool                   `json:"direct,omitempty"` // call Action.Exec directly instead of Spec.Step
+	Direct      bool                   `json:"direct,omitempty"`  // call Action.Exec directly instead of Spec.Step
 	Default     bool                   `json:"default,omitempty"`
 	// PatternVar: the guarded branch has a pattern that binds a variable
 	// with a permanent name from the bindings ({"x": "?p!"})
